@@ -23,6 +23,7 @@ PROP = {
     "technique": "Lean 4 proofs: per-region rewriting lemmas for the two address ladders, frame lemmas per RAM region, kernel "
                  "enumeration of byte-level bit facts, refinement by induction over write histories; exhaustive-address "
                  "differential correspondence on the real MemoryAreas",
+    "rule_extra": "one history operation in six lets time pass (run_clock_cycles(64 v), up to 16320 clocks: through VBlank into all LCD modes); the spec ignores time, the model runs Sys.dev and the whole I/O block is compared; the fetch digests fold the up-to-three bytes (and their number) the slice hands to the decoder at every sampled address and at all region ends",
     "streams": [{"name": "c10", "shards": {"quick": 2, "thorough": 16}}],
     "modules": ["GbVerif.Model.Bus", "GbVerif.Model.Fetch", "GbVerif.Model.Cart", "GbVerif.Model.Joypad", "GbVerif.Spec.BusSpec",
                 "GbVerif.Spec.Cart", "GbVerif.Proofs.BusBasic", "GbVerif.Proofs.BusWf", "GbVerif.Proofs.BusDma",
